@@ -142,15 +142,27 @@ pub fn run_c05(rep: &mut Report) {
         ("after-bad-parity-frame", Some(encode_frame(0xFE) ^ 0x200)),
     ];
     let mut serial = 0u64;
+    // (history name, bits shifted in first, clear() afterwards?)
+    let mut hist: Vec<(String, Vec<bool>, bool)> = Vec::new();
     for (pname, prev) in prevs.iter() {
+        hist.push((pname.to_string(), prev.map(|p| (0..11).map(|i| (p >> i) & 1 == 1).collect()).unwrap_or_default(), false));
+    }
+    // an abandoned partial frame followed by clear(): 1..10 bits of a valid frame and of one with bad parity
+    for (nm, f) in [("valid", encode_frame(0xA5)), ("bad-parity", encode_frame(0x01) ^ 0x200), ("all-ones", 0x7FFu16)] {
+        for k in [1usize, 5, 9, 10] {
+            hist.push((format!("after-{}-bits-of-a-{}-frame-then-clear", k, nm), (0..k).map(|i| (f >> i) & 1 == 1).collect(), true));
+        }
+    }
+    for (pname, pbits, clear) in hist.iter() {
         for w in 0..2048u16 {
             let want: BitRes = frame_expect(w).map(Some);
             let got = guarded(|| {
                 let mut d = Ps2Decoder::new();
-                if let Some(p) = prev {
-                    for i in 0..11 {
-                        let _ = d.add_bit((p >> i) & 1 == 1);
-                    }
+                for b in pbits {
+                    let _ = d.add_bit(*b);
+                }
+                if *clear {
+                    d.clear();
                 }
                 let mut last = Ok(None);
                 for i in 0..11 {
@@ -166,8 +178,11 @@ pub fn run_c05(rep: &mut Report) {
             };
             if got.as_ref().ok() != Some(&want) {
                 let mut ops = Vec::new();
-                if let Some(p) = prev {
-                    ops.push(format!("bits:{}", word_bits(*p)));
+                if !pbits.is_empty() {
+                    ops.push(format!("bits:{}", pbits.iter().map(|b| if *b { '1' } else { '0' }).collect::<String>()));
+                }
+                if *clear {
+                    ops.push("clear".to_string());
                 }
                 ops.push(format!("bits:{}", word_bits(w)));
                 rep.violate(
@@ -216,52 +231,48 @@ fn kb_add_word<D: Dec>(rep: &mut Report) {
     let mut n = 0u64;
     for p in &prefixes {
         for w in 0..2048u16 {
-            let r = guarded(|| {
+            // each side in its own guarded section: a panic of the scancode stage hits both alike and is C08's matter
+            let got = guarded(|| {
                 let mut kb: Keyboard<DynLayout, D> = Keyboard::new(D::fresh(), dyn_layout(0, 0), HandleControl::Ignore);
-                let mut twin = D::fresh();
                 for b in p {
                     let _ = kb.add_byte(*b);
+                }
+                kb.add_word(w)
+            });
+            let want = guarded(|| {
+                let mut twin = D::fresh();
+                for b in p {
                     let _ = twin.advance_state(*b);
                 }
-                let got = kb.add_word(w);
-                let want = match frame_expect(w) {
+                match frame_expect(w) {
                     Ok(b) => twin.advance_state(b),
                     Err(e) => Err(e),
-                };
-                (got, want)
+                }
             });
             rep.evaluations += 1;
             n += 1;
-            match r {
-                Ok((got, want)) => {
-                    if got != want {
-                        rep.violate(
-                            format!("C05|Keyboard::add_word|{}|prefix=[{}]|word=0x{:03X}|want={}|got={}", set_name(set), hex_bytes(p), w, res_str(&want), res_str(&got)),
-                            format!(
-                                "Keyboard<_, {}>::add_word(0x{:03X}) after bytes [{}]: frame rule + scancode decoder say {}, got {}",
-                                set_name(set),
-                                w,
-                                hex_bytes(p),
-                                res_str(&want),
-                                res_str(&got)
-                            ),
-                            J::obj()
-                                .with("kind", J::s("kbd-ops"))
-                                .with("set", J::u(set as u64))
-                                .with("ops", J::Arr(p.iter().map(|b| J::s(format!("byte:{}", b))).chain(std::iter::once(J::s(format!("word:{}", w)))).collect()))
-                                .with("expected_last", J::s(res_str(&want)))
-                                .with("observed_last", J::s(res_str(&got))),
-                        );
-                    }
-                }
-                Err(pn) => {
-                    rep.panics += 1;
-                    rep.violate(
-                        format!("C05|Keyboard::add_word|{}|panic|{}", set_name(set), panic_sig(&pn)),
-                        format!("Keyboard::add_word(0x{:03X}) after [{}] panicked: {}", w, hex_bytes(p), pn),
-                        J::Null,
-                    );
-                }
+            let show = |r: &Result<Res, String>| match r {
+                Ok(r) => res_str(r),
+                Err(_) => "PANIC".to_string(),
+            };
+            if got.as_ref().ok() != want.as_ref().ok() || got.is_err() != want.is_err() {
+                rep.violate(
+                    format!("C05|Keyboard::add_word|{}|prefix=[{}]|word=0x{:03X}|want={}|got={}", set_name(set), hex_bytes(p), w, show(&want), show(&got)),
+                    format!(
+                        "Keyboard<_, {}>::add_word(0x{:03X}) after bytes [{}]: frame rule + scancode decoder say {}, got {}",
+                        set_name(set),
+                        w,
+                        hex_bytes(p),
+                        show(&want),
+                        show(&got)
+                    ),
+                    J::obj()
+                        .with("kind", J::s("kbd-ops"))
+                        .with("set", J::u(set as u64))
+                        .with("ops", J::Arr(p.iter().map(|b| J::s(format!("byte:{}", b))).chain(std::iter::once(J::s(format!("word:{}", w)))).collect()))
+                        .with("expected_last", J::s(show(&want)))
+                        .with("observed_last", J::s(show(&got))),
+                );
             }
         }
     }
@@ -717,14 +728,8 @@ pub fn run_c06(rep: &mut Report) {
                         ));
                         break;
                     }
-                    if rk != wantk {
-                        viol.push((
-                            format!("C06|noisy-stream|Keyboard::add_bit|want={}|got={}", res_str(&wantk), res_str(&rk)),
-                            format!("noisy bit stream through Keyboard::add_bit: shadow register + twin scancode decoder say {}, got {}", res_str(&wantk), res_str(&rk)),
-                            recent.iter().cloned().collect::<Vec<_>>(),
-                        ));
-                        break;
-                    }
+                    // the Keyboard-level result is only driven here (composition is C18's subject)
+                    let _ = (&rk, &wantk);
                     if shadow.is_empty() && frames % 97 == 0 {
                         let s = format!("{:?}", d);
                         if s != fd {
